@@ -102,9 +102,69 @@ def server_residue_part(chk):
     return bad, nops
 
 
+def client_residue_part(chk):
+    """The real client (h_cli: client_handshake + client_tunnel) receives into one 64 KiB stack buffer too.  The client side of recorded world
+    runs (DNS and raw mode) is replayed twice; after selected answers a FILLER datagram the client drops (DNS header with QR=0 / no raw magic) is
+    delivered that leaves either 0xA5 bytes (run A) or the tail of that genuine answer (run B) in the buffer, followed by the answer CUT short.
+    Every line must be identical in both runs: a truncated answer or raw frame must not be completed from the buffer."""
+    import random
+    import worldcheck as W, world, iodclient as C
+    rng, thorough = chk.rng, chk.tier == "thorough"
+    jobs = []
+    for k in range(12 if thorough else 6):
+        cfg = W.random_config(rng, {"raw_mode": 1 if k % 2 == 0 else 0})
+        jobs.append((chk.seed * 7000 + k, cfg, {}, None, 6, False, "clean"))
+    res = W.run_worlds(jobs)
+    exe = vlib.build_cli()
+    bad, nops = 0, 0
+    for r in res:
+        base = r.get("cops") or []
+        if r["dead"] or not base:
+            continue
+        opsA, opsB, marks = [], [], []
+        for op in base:
+            opsA.append(op); opsB.append(op)
+            t = op.split()
+            if t[0] != "ans" or len(t) < 2:
+                continue
+            d = vlib.unhx(t[1])
+            if len(d) < 8 or rng.random() > 0.5:
+                continue
+            israw = d[:3] == C.RAW_HEADER[:3]
+            cuts = [len(d) - 1, len(d) - 2, len(d) - 4, 4, 5] if israw else [len(d) - 1, len(d) - 3, 12, 13, 17, max(13, len(d) // 2)]
+            cut = rng.choice([c for c in cuts if 0 < c < len(d)])
+            hdr = bytes([0xff, 0xff, 0x00])          # not the raw magic; as DNS: QR=0, a query - dropped by the client
+            fa = hdr + b"\xa5" * (len(d) - 3)
+            fb = hdr + d[3:]
+            opsA += ["ans " + vlib.hx(fa), "ans " + vlib.hx(d[:cut])]
+            opsB += ["ans " + vlib.hx(fb), "ans " + vlib.hx(d[:cut])]
+            marks.append(len(opsA) - 1)
+        ra = vlib.run_lines(exe, opsA)
+        rb = vlib.run_lines(exe, opsB)
+        nops += len(opsA) + len(opsB)
+        if ra.rc or rb.rc:
+            r_, o_ = (rb, opsB) if rb.rc else (ra, opsA)
+            i = min(len(r_.lines), len(o_) - 1)
+            chk.violation("C12/C06 fails on the implementation: the client aborted (rc=%d, sanitizer or crash) on a cut answer following a filler datagram; with the other residue it %s\n%s"
+                          % (r_.rc, "also aborted" if (ra.rc and rb.rc) else "did not abort", r_.stderr[-1200:]), o_[:i + 1], key="c12:client-abort")
+            bad += 1
+            continue
+        for i in marks:
+            if i < len(ra.lines) and i < len(rb.lines) and ra.lines[i] != rb.lines[i]:
+                chk.violation("C12 fails on the implementation: the client's reaction to a %d-byte datagram (a cut copy of a genuine %s) depends on what the earlier datagram left in the receive buffer:\n 0xA5 residue -> %s\n genuine residue -> %s"
+                              % (len(vlib.unhx(opsA[i].split()[1])), "raw frame" if r["cfg"]["raw_mode"] else "answer", ra.lines[i].split(" | st ")[0][:300], rb.lines[i].split(" | st ")[0][:300]),
+                              ["# client ops, run B (residue = tail of the genuine datagram); in run A the filler before the last datagram is " + opsA[i - 1][:80]] + opsB[:i + 1], key="c12:stale-client")
+                bad += 1
+                break
+    chk.notes["client_residue_ops"] = nops
+    return bad, nops
+
+
 def run(chk):
     proof_ok = chk.proofs()
     sbad, sn = server_residue_part(chk)
+    cbad, cn = client_residue_part(chk)
+    sbad, sn = sbad + cbad, sn + cn
     exe = vlib.build_harness("h_pure", ["h_pure.c"], vlib.PURE_OBJS)
     pkts = build_ops(chk)
     ops = []
